@@ -145,6 +145,13 @@ class Run:
         are read back (full=True re-reads everything: done at the end of a history)."""
         ins = self.inspect(brief=not full)
         self.last_ins = ins
+        # a rollover interrupted between hard_link and rename leaves the newest backup as a second
+        # name of MANIFEST (same inode); the next open removes it (mani, /repo d7acf10): one fragment
+        alias = [f for f in ins.frags["mani"] if f[0] != "cur" and ins.inos.get(("mani", f[0])) == ins.inos.get(("mani", "cur"), "-")]
+        for f in alias:
+            ins.frags["mani"].remove(f)
+            ins.mv.pop(f[0], None)
+            self.stats["interrupted_rollover_seen"] = self.stats.get("interrupted_rollover_seen", 0) + 1
         numbered = [int(f[0]) for f in ins.frags["mani"] if f[0] != "cur"] + [int(x) for x in ins.older["mani"]]
         # the verifier never removes the newest numbered fragment, so this is the live one's number
         cur_id = (max(numbered) + 1) if numbered else 1
@@ -378,7 +385,8 @@ class Run:
             selector = "assertion_failed:" in msg and any(x in msg for x in ("ssts[", "first_key", "last_key", "lower_bound", "upper_bound", "levels"))
             self.sync("panicked compaction")
             if selector:
-                # the assertions of next_compaction / find_best_compaction are C01/C20's subject
+                # the assertions of next_compaction / find_best_compaction are C01/C20's subject (observed
+                # only after a reopen whose recovered levels are not well formed: C01's known finding K2)
                 self.outside = "compaction step panicked in the selector (%s); the session cannot continue" % msg[-90:]
                 self.problem("outside", what=self.outside)
             else:
